@@ -18,9 +18,9 @@ from ..gen import sheets as G
 from ..gen import sugar as S
 
 MANIFEST = dict(
-    text="Proof: (1) Lean theorem sugar_equiv_of_cert (validated bisimulation certificate ⇒ equal traces for every contact input sequence, full observation level) applied by the driver to the REAL compiler's output for each sugared sheet and for its desugared twin; (2) Lean model of the parser's block structure (Rpft/Sugar.lean) with events_desugar: for every sheet tree and context the parser performs the same row events on a sheet and on its desugared form (loops unrolled in order with loop/index variables bound, false include_if rows and blocks dropped without being evaluated, loop variables gone after end_for, nesting composes). Tie: real compiler on generated sugared sheets vs twins (nesting ≤ 3, 0..3 iterations, string/range/native lists, index variables, include_if literals and expressions, excluded blocks with unevaluable content, inserted templates with data rows and arguments).",
+    text="Proof: (1) Lean theorem sugar_equiv_of_cert (validated bisimulation certificate ⇒ equal traces for every contact input sequence, full observation level) applied by the driver to the REAL compiler's output for each sugared sheet and for its desugared twin; (2) Lean model of the parser's block structure (Rpft/Sugar.lean) with events_desugar: for every sheet tree and context the parser performs the same row events on a sheet and on its desugared form (loops unrolled in order with loop/index variables bound, false include_if rows and blocks dropped without being evaluated, loop variables gone after end_for, nesting composes); (3) the block clause on the Lean compiler model for all machine states: block_edge_group (an edge naming a block changes nothing but node contents and connects exactly the nodes the NodeGroup recursion reaches), block_edge_frame / block_edge_connects_reach (connected and hard exits keep their destination, loose exits of reached nodes lead to the edge's destination), block_edge_inside and the kernel-checked F-C03-a witness block_edge_reaches_outside. Tie: real compiler on generated sugared sheets vs twins (nesting ≤ 3, 0..3 iterations, string/range/native lists, index variables, include_if literals and expressions, excluded blocks with unevaluable content, inserted templates with data rows and arguments).",
     ref="§5 C03",
-    note="Trusts: Lean kernel; certificate search untrusted; the harness desugarer uses the repo's own template engine to substitute loop variables (the meaning of {{v}} is not C03's subject); NodeGroup exit semantics are exercised on the real code only. Known findings: F-C03-a (edge naming a block also connects exits of rows leading into it).",
+    note="Trusts: Lean kernel; certificate search untrusted; the harness desugarer uses the repo's own template engine to substitute loop variables (the meaning of {{v}} is not C03's subject); NodeGroup exit semantics: proved on the Lean compiler model (tied to the real parser by the exact comparison of C01) and exercised on the real code by the with/without-edge oracle. Known findings: F-C03-a (edge naming a block also connects exits of rows leading into it).",
     technique="Lean 4 proof (certificate soundness; structural induction on the block tree) + metamorphic sugared-vs-desugared check on the real compiler",
 )
 
@@ -347,7 +347,8 @@ def run(ck: core.Check):
         "pair where at least one side compiles; distinct = distinct sugared CSV"
     )
     ck.assumptions = ["the desugarer substitutes loop variables with the repo's own template engine (cell level)"]
-    ck.partial_gap = ["the block clause (an edge naming a block leaves from every still-unconnected ordinary exit, never from a hard exit) is decided on the real compiler by the with/without-edge oracle; the NodeGroup machinery is in the Lean compiler model (Rpft/Compile.lean, tied in C01); proved about it at node level (block_edge_exits: exactly the exits leading nowhere are re-targeted, hard exits and connected exits never; block_edge_consumes_loose), the group recursion (which nodes of a block are visited) is not proved",
+    ck.partial_gap = ["the block clause (an edge naming a block leaves from every still-unconnected ordinary exit, never from a hard exit) is decided on the real compiler by the with/without-edge oracle; the NodeGroup machinery is in the Lean compiler model (Rpft/Compile.lean, tied in C01) and proved about it for ALL machine states: node level (block_edge_exits: exactly the exits leading nowhere are re-targeted, hard exits and connected exits never; block_edge_consumes_loose) and group level (connect_loose_group / block_edge_group: nothing but node contents changes, a node is replaced by its connected version exactly when the recursion reaches it — Compile.Reach — and every other node is untouched; block_edge_frame; block_edge_connects_reach; block_edge_inside: only nodes of the block's subtree when no begin row leaks; block_edge_reaches_outside: kernel-checked witness of finding F-C03-a). The statements are about successful runs (the model fails when its fuel runs out); that the parser's fuel 2·|groups|+8 always suffices is not proved",
+
                       "insert_as_block is compared on the real code (twin workbooks); it is outside the Lean compiler model"]
     drv = core.Driver()
     # known-finding stream (deterministic): F-C03-a
